@@ -80,7 +80,7 @@ def compare(ref, alt, family):
     return bad
 
 
-def other_valid_root(ref_net, alt_net, tol=1e-6):
+def other_valid_root(ref_net, alt_net, tol=1e-6, spec_from_alt=False):
     """Is the alternative's voltage vector ANOTHER exact solution of the reference's own power flow equations?
     Evaluated with the REFERENCE run's internal Ybus / Sbus / bus types (so a wrongly built admittance matrix in the
     alternative path can never pass): mismatch at PQ buses (P and Q), at PV buses (P and |V|) and the slack voltage."""
@@ -89,10 +89,17 @@ def other_valid_root(ref_net, alt_net, tol=1e-6):
         Y, S, Vr, Va = ri["Ybus"], ri["Sbus"], ri["V"], ai["V"]
         if Vr.shape != Va.shape:
             return False
-        mis = Va * np.conj(Y * Va) - S
         pq, pv, rf = ri["pq"], ri["pv"], ri["ref"]
+        if spec_from_alt:
+            # enforce_q_lims: which generators end up limited (PV -> PQ, Q moved into Sbus) depends on the root the
+            # iteration approaches; injections and bus types are those of the alternative's LAST pass, the admittance
+            # matrix is still the reference's
+            S, pq, pv = ai["Sbus"], ai["pq"], ai["pv"]
+        mis = Va * np.conj(Y * Va) - S
+        vset = np.abs(Vr[pv])
         ok = np.abs(mis[pq]).max(initial=0.) < tol and np.abs(mis[pv].real).max(initial=0.) < tol and \
-            np.abs(np.abs(Va[pv]) - np.abs(Vr[pv])).max(initial=0.) < tol and np.abs(Va[rf] - Vr[rf]).max(initial=0.) < tol
+            (spec_from_alt or np.abs(np.abs(Va[pv]) - vset).max(initial=0.) < tol) and \
+            np.abs(Va[rf] - Vr[rf]).max(initial=0.) < tol
         return bool(ok) and bool(np.abs(Va - Vr).max() > 1e-3)
     except Exception:
         return False
